@@ -133,6 +133,13 @@ func checkReentrant(r *core.Report, rule string, root *core.Func, what string) {
 					}
 				case *ast.CallExpr:
 					nm := core.CalleeName(info, s)
+					// a positioned (stateful) reader kept on the shared object: Seek / Read move a cursor that all callers share
+					if sel, ok := core.Unparen(s.Fun).(*ast.SelectorExpr); ok && sharedField(sel.X) && bad == "" {
+						switch sel.Sel.Name {
+						case "Seek", "Read", "ReadByte", "ReadString", "ReadBytes", "Discard", "Next":
+							bad, badPos = "moves the cursor of "+core.ExprStr(sel.X)+" ("+sel.Sel.Name+") kept on the shared "+shared.Obj().Name(), s
+						}
+					}
 					dst := -1
 					switch {
 					case core.BuiltinName(info, s) == "copy":
